@@ -304,6 +304,50 @@ def parked_overflow(acc, rng, size, delta, style, no_entries=False):
         acc.count("empty_scheduler_errors")
 
 
+def grow_drain_pickle(acc, rng, n, m, how):
+    """The heap grows past a reallocation boundary, is drained down to n - m entries through get + trash, is pickled at that
+    smaller fill, and the clone must go on accepting pushes and returning minima (memory bookkeeping of the restored heap)."""
+    from jellyfysh.base.time import Time
+    from jellyfysh.base.exceptions import SchedulerError
+    nh = n + 8
+    sut, model = Sut("heap", nh), Model()
+    wit = {"kind": "grow_drain_pickle", "n": n, "m": m, "how": how}
+    try:
+        for i in range(n):
+            t = (float(i // 7), rng.random())
+            model.push(i, t)
+            sut.s.push_event(Time(*t), sut.h[i])
+        for _ in range(m):
+            want = model.min_finite()
+            h = sut.s.get_succeeding_event()
+            if model.live.get(h.i) != want:
+                acc.violation("C06:heap-returns-non-minimal-time", f"while draining {n} entries: {model.live.get(h.i)} vs {want}", wit)
+                return
+            model.trash(h.i)
+            sut.s.trash_event(sut.h[h.i])
+        sut = sut.clone(how)
+        acc.count("pickle_roundtrips")
+        acc.count("pickles_of_a_drained_heap")
+        free = [i for i in range(nh) if i not in model.live]
+        for i in free[:rng.randint(1, 8)]:
+            t = (float(n), rng.random())
+            model.push(i, t)
+            sut.s.push_event(Time(*t), sut.h[i])
+        for _ in range(min(len(model.live), 40)):
+            want = model.min_finite()
+            h = sut.s.get_succeeding_event()
+            acc.count("gets_checked")
+            if model.live.get(h.i) != want:
+                acc.violation("C06:heap-returns-non-minimal-time", f"after the {how} of a heap drained from {n} to {n - m} "
+                                                                   f"entries: {model.live.get(h.i)} vs {want}", wit)
+                return
+            model.trash(h.i)
+            sut.s.trash_event(sut.h[h.i])
+    except (SchedulerError, MemoryError, Exception) as e:
+        acc.violation("C06:heap-raises-although-finite-event-live",
+                      f"heap grown to {n} entries, drained by {m}, round trip through {how}: {type(e).__name__}: {e}", wit)
+
+
 def shard(acc, prop="C06", seed=0, shard=0, histories=10, maxops=2000, flavor="plain"):
     import sys
     mod = sys.modules["jellyfysh.scheduler.heap_scheduler._heap"]
@@ -330,6 +374,12 @@ def shard(acc, prop="C06", seed=0, shard=0, histories=10, maxops=2000, flavor="p
             acc.count("histories_crossing_reallocation")
         if shard == 0 and k < 2:
             acc.sample({k2: v for k2, v in tag.items() if k2 != "kind"})
+    # reallocation boundaries x drain depths x pickle flavours
+    for n in (63, 64, 65, 70, 127, 130, 200, 260, 520):
+        for frac in (0.03, 0.15, 0.4, 0.65, 0.9):
+            sub = core.rng_for(prop, seed, "gdp", shard, n, frac)
+            grow_drain_pickle(acc, sub, n, max(1, int(n * frac)), "dill" if sub.random() < 0.5 else "pickle")
+            acc.case(("gdp", flavor, shard, n, frac), nontrivial=True)
     # parked overflow sweeps
     sizes = [64, 128, 256, 512, 1024, 2048]
     for size in sizes:
@@ -474,6 +524,9 @@ def replay(acc, w):
         sub = core.rng_for("C06", x["seed"], "hist", x["shard"], x["flavor"], x["k"])
         wrap = {int(k): v for k, v in x["wrap"].items()} if x.get("wrap") else None
         run_history(acc, sub, x["nh"], x["nops"], x["style"], set(x["pickle_at"]), wrap, x)
+    elif x.get("kind") == "grow_drain_pickle":
+        for s in range(5):
+            grow_drain_pickle(acc, core.rng_for("C06", s, "replay"), x["n"], x["m"], x["how"])
     elif x.get("kind") == "parked_overflow":
         for s in range(20):
             parked_overflow(acc, core.rng_for("C06", s, "replay"), x["size"], x["delta"], "mixed", x.get("no_entries", False))
